@@ -255,9 +255,14 @@ Theorem C03_single_insertion_is_read_by_exactly_the_listed_operators :
     (i_trans i0 = Tr_ADD_QUANTIZE \/ i_trans i0 = Tr_ADD_DEQUANTIZE) ->
     Forall (fun c => -1 <= c) (i_consumers i0) ->
     never_names k (i_tensor i0) pre ->
+    (forall t0, tensor_at g0 (i_tensor i0) = Some t0 -> 0 <= t_buf t0) ->
     transform_graph m0 (pre ++ ti0 :: post) = Ok m' ->
-    exists x' g', nth_opt (m_subgraphs m') k = Some g' /\ ntens g0 <= x' /\
-                  readers_profile x' g' = moved_profile (i_tensor i0) (i_consumers i0) g0.
+    exists x' g' tn, nth_opt (m_subgraphs m') k = Some g' /\ ntens g0 <= x' /\
+                  readers_profile x' g' = moved_profile (i_tensor i0) (i_consumers i0) g0 /\
+                  (* ... and that tensor has the dtype / annotation the instruction's
+                     parameters select (QUANTIZE) or is float32 (DEQUANTIZE) *)
+                  tensor_at g' x' = Some tn /\
+                  new_tensor_type (qtrans_eqb (i_trans i0) Tr_ADD_QUANTIZE) (i_params i0) tn.
 Proof. exact single_insertion_readers. Qed.
 Print Assumptions C03_single_insertion_is_read_by_exactly_the_listed_operators.
 
